@@ -25,7 +25,9 @@ from pymablock.algorithm_parsing import series_computation
 FNS = {"f": (2, 1), "g": (1, -1)}
 
 def gen_program(rnd, fname):
-    ns = rnd.randint(2, 5); names = [f"S{k}" for k in range(ns)]
+    ns = rnd.randint(2, 5)
+    # names in the library's own style: primes and suffixes, so that one name (or one product name) is a string prefix of another
+    names = [f"S{k}" for k in range(ns)] if rnd.random() < 0.5 else sorted(rnd.sample(["A", "A'", "A''", "B", "B2", "B20", "C"], ns))
     starts = [rnd.choice(["0", "0", "0", "none", '"H_0"', "1"]) for _ in range(ns)]
     starts[0] = rnd.choice(["0", "0", '"H_0"'])
     zero_start = [n for n, s in zip(names, starts) if s == "0"]
@@ -33,7 +35,12 @@ def gen_program(rnd, fname):
     # declared products: factors must all start at 0
     for _ in range(rnd.randint(0, 2)):
         if not zero_start: break
-        k = rnd.choice([2, 2, 3]); products.append((" @ ".join(rnd.choice(zero_start) for _ in range(k)), False))
+        k = rnd.choice([2, 2, 3]); fs = [rnd.choice(zero_start) for _ in range(k)]
+        if products and rnd.random() < 0.5:
+            # a longer product whose name extends the name of an earlier one without having it as its leading factors
+            head = products[0][0].split(" @ "); ext = [n for n in zero_start if n != head[-1] and n.startswith(head[-1])]
+            if ext: fs = head[:-1] + [rnd.choice(ext), rnd.choice(zero_start)]
+        if " @ ".join(fs) not in [p for p, _ in products]: products.append((" @ ".join(fs), False))
     lines = [f"def {fname}():"]
     def leaf(rank, allow_prod=True):
         opts = ['"H"', '"H"']
